@@ -3,6 +3,8 @@ import CppUModel.Proofs.MockLazy
 import CppUModel.Proofs.MockIop
 import CppUModel.Proofs.MockOut
 import CppUModel.Model.MockParam
+import CppUModel.Model.MockText
+import CppUModel.Proofs.MockGen
 import CppUModel.Gen.MockPlugin
 import CppUModel.Props.C09
 /-!
@@ -433,6 +435,136 @@ theorem unfulfilled_in_any_scope_fails (w : World) (sc : Scope) (e : Exp)
     exact ⟨e, ⟨sc, hsc, he⟩, by simp [Exp.isFulfilled, hopen]⟩
   simp [endCheck, this]
 
+/-! ### the expectation history of the failure text (beyond the first line) -/
+
+/-- **history_partition.** Every expectation handed to a failure is listed exactly once: in the
+    section "EXPECTED calls that WERE NOT fulfilled" or in "EXPECTED calls that WERE fulfilled". -/
+theorem history_partition (es : List Exp) : (unfulfilledOf es ++ fulfilledOf es).Perm es := by
+  unfold unfulfilledOf fulfilledOf
+  have h := List.filter_append_perm (fun e : Exp => e.isFulfilled) es
+  refine (List.perm_append_comm).trans ?_
+  simpa using h
+
+/-- **unfulfilled_section_exact.** The "WERE NOT fulfilled" section lists exactly the expectations
+    whose call counter differs from the expected count, in declaration order; the "WERE fulfilled"
+    section exactly the others. -/
+theorem unfulfilled_section_exact (es : List Exp) :
+    (∀ e, e ∈ unfulfilledOf es ↔ e ∈ es ∧ e.actual ≠ e.expected) ∧
+    (∀ e, e ∈ fulfilledOf es ↔ e ∈ es ∧ e.actual = e.expected) ∧
+    (unfulfilledOf es).Sublist es ∧ (fulfilledOf es).Sublist es := by
+  refine ⟨fun e => ?_, fun e => ?_, List.filter_sublist, List.filter_sublist⟩
+  · simp [unfulfilledOf, Exp.isFulfilled]
+  · simp [fulfilledOf, Exp.isFulfilled]
+
+/-- **unfulfilled_failure_iff_section_nonempty.** The end-of-test check reports "Expected call WAS
+    NOT fulfilled" exactly when its "WERE NOT fulfilled" section is not empty (it never prints
+    that failure with `<none>` in the section, and never omits it when something is open). -/
+theorem unfulfilled_failure_iff_section_nonempty (es : List Exp) :
+    endCheck es = some msgUnfulfilled ↔ unfulfilledOf es ≠ [] := by
+  have hne : msgOutOfOrder ≠ msgUnfulfilled := by decide
+  unfold endCheck unfulfilledOf
+  cases h : es.any (fun e => !e.isFulfilled) with
+  | true =>
+    simp only [if_true, true_iff]
+    intro h0
+    rw [List.any_eq_true] at h
+    obtain ⟨x, hx, hp⟩ := h
+    have : x ∈ es.filter (fun e => !e.isFulfilled) := List.mem_filter.mpr ⟨hx, hp⟩
+    rw [h0] at this; cases this
+  | false =>
+    have hnil : es.filter (fun e => !e.isFulfilled) = [] := by
+      rw [List.filter_eq_nil_iff]
+      intro a ha hp
+      have : es.any (fun e => !e.isFulfilled) = true := List.any_eq_true.mpr ⟨a, ha, hp⟩
+      rw [h] at this; cases this
+    simp only [Bool.false_eq_true, if_false, hnil, ne_eq, not_true_eq_false, iff_false]
+    split
+    · intro h'; exact hne (Option.some.inj h')
+    · intro h'; cases h'
+
+/-- the related-to history only lists expectations of the function the failing call was made to -/
+theorem related_history_is_about_the_function (fn : String) (es : List Exp) :
+    (∀ e ∈ unfulfilledOf (relatedTo fn es) ++ fulfilledOf (relatedTo fn es), e.name = fn ∧ e ∈ es) ∧
+    (unfulfilledOf (relatedTo fn es) ++ fulfilledOf (relatedTo fn es)).Perm (es.filter (fun e => e.name == fn)) := by
+  refine ⟨fun e he => ?_, history_partition _⟩
+  have := (history_partition (relatedTo fn es)).mem_iff.mp he
+  simp only [relatedTo, List.mem_filter, beq_iff_eq] at this
+  exact ⟨this.2, this.1⟩
+
+theorem isFulfilled_norm (e : Exp) : e.norm.isFulfilled = e.isFulfilled := rfl
+
+theorem entry_norm (e : Exp) : e.norm.entry = e.entry := by
+  have h1 : (e.ins.map (fun p => ({ p with passed := false } : Param))).map (·.name) = e.ins.map (·.name) := by
+    simp [List.map_map, Function.comp_def]
+  have h2 : (e.outs.map (fun p => ({ p with passed := false } : OutParam))).map (·.name) = e.outs.map (·.name) := by
+    simp [List.map_map, Function.comp_def]
+  show Exp.entry { e.reset with cand := false, isMatch := false } = e.entry
+  unfold Exp.entry Exp.reset
+  simp only [h1, h2]
+
+theorem unfulfilledOf_norm (es : List Exp) : unfulfilledOf (es.map Exp.norm) = (unfulfilledOf es).map Exp.norm := by
+  simp [unfulfilledOf, List.filter_map, Function.comp_def, isFulfilled_norm]
+
+theorem fulfilledOf_norm (es : List Exp) : fulfilledOf (es.map Exp.norm) = (fulfilledOf es).map Exp.norm := by
+  simp [fulfilledOf, List.filter_map, Function.comp_def, isFulfilled_norm]
+
+theorem sectionLines_norm (sec : String) (es : List Exp) : sectionLines sec (es.map Exp.norm) = sectionLines sec es := by
+  simp [sectionLines, orNone, List.map_map, Function.comp_def, entry_norm]
+
+/-- the text of the history does not depend on the matching flags of the call in flight -/
+theorem historyAll_norm (es : List Exp) : historyAll (es.map Exp.norm) = historyAll es := by
+  simp only [historyAll, unfulfilledOf_norm, fulfilledOf_norm, sectionLines_norm]
+
+/-- **afterCalls_refines_consume.** The expectation list the code is left with after a sequence of
+    calls that all succeed is, up to the per-call matching flags, the abstract consumption of the
+    calls (every class, any length). -/
+theorem afterCalls_refines_consume : ∀ (calls : List Call) (es : List Exp) (k : Nat) (fin : List Exp),
+    Clean es → UnambiguousI es → (∀ e ∈ es, WFExp e) → (∀ c ∈ calls, WFCall c) →
+    afterCalls es k calls = some fin → consumeAll (es.map Exp.norm) k calls = some (fin.map Exp.norm)
+  | [], es, k, fin, _, _, _, _, h => by
+    simp only [afterCalls, Option.some.injEq] at h; subst h; rfl
+  | c :: rest, es, k, fin, hclean, hun, hwfe, hwfc, h => by
+    obtain ⟨s1, s2⟩ := callFull_specI (c := c) (k + 1) bufInit hclean hun hwfe (hwfc c (by simp))
+    simp only [afterCalls] at h
+    simp only [consumeAll, consume, any_wants_norm]
+    cases hany : es.any (wants c) with
+    | false =>
+      have hf := s2 hany
+      cases hff : (callFull es (k + 1) c.name c.segs bufInit).fail with
+      | none => exact absurd hff hf
+      | some m => rw [hff] at h; cases h
+    | true =>
+      obtain ⟨t1, t2, _⟩ := s1 hany
+      have t3 := callFull_clean es (k + 1) c.name c.segs bufInit hclean t1
+      rw [t1] at h
+      simp only [if_true]
+      have hcomm : modifyFirst (wants c) (fun e => e.bump (k + 1)) (es.map Exp.norm)
+          = (modifyFirst (wants c) (fun e => e.bump (k + 1)) es).map Exp.norm :=
+        (modifyFirst_map_comm (wants c) (fun e => e.bump (k + 1)) Exp.norm (wants_norm c) (fun e => norm_bump e (k + 1)) es).symm
+      have hnorm : (callFull es (k + 1) c.name c.segs bufInit).es.map Exp.norm
+          = (modifyFirst (wants c) (fun e => e.bump (k + 1)) es).map Exp.norm := by rw [t2, hcomm]
+      have ih := afterCalls_refines_consume rest (callFull es (k + 1) c.name c.segs bufInit).es (k + 1) fin t3
+        (unambiguous_transferI hnorm (unambiguous_bumpI hun))
+        (wfexp_transfer hnorm (wfexp_bump hwfe))
+        (fun c' hc' => hwfc c' (by simp [hc'])) h
+      rw [t2] at ih
+      exact ih
+
+/-- **end_of_test_history_is_unconsumed_capacity.** For every unambiguous expectation set (plain or
+    ignoring other parameters) and every sequence of calls that are all fulfilled: the expectation
+    history the end-of-test failure prints — both sections, every entry with its name, object, order
+    window, parameter names and its two counters — is the history of the ABSTRACT state `consumeAll`
+    (each call used up one unit of the first expectation with capacity and its signature): the
+    "WERE NOT fulfilled" section lists exactly the expectations with capacity left, in declaration order. -/
+theorem end_of_test_history_is_unconsumed_capacity (es : List Exp) (k : Nat) (calls : List Call) (fin : List Exp)
+    (hclean : Clean es) (hun : UnambiguousI es) (hwfe : ∀ e ∈ es, WFExp e) (hwfc : ∀ c ∈ calls, WFCall c)
+    (h : afterCalls es k calls = some fin) :
+    ∃ es', consumeAll (es.map Exp.norm) k calls = some es' ∧ historyAll fin = historyAll es' ∧
+      (unfulfilledOf fin).map Exp.norm = es'.filter (fun e => decide (e.actual ≠ e.expected)) := by
+  refine ⟨fin.map Exp.norm, afterCalls_refines_consume calls es k fin hclean hun hwfe hwfc h, (historyAll_norm fin).symm, ?_⟩
+  rw [← unfulfilledOf_norm]
+  simp [unfulfilledOf, Exp.isFulfilled]
+
 /-! ### parameter values: composition with the C09 value model -/
 
 /-- **param_equal_iff_same_integer.** The matching model stores parameter values in the normal
@@ -540,6 +672,53 @@ theorem diagnosis_texts :
     Gen.MockMsg.missingObjectEnd = "\" but it did not happen." := by
   decide
 
+/-! ### the list primitives and expectation predicates are the ones in the source -/
+
+/-- **source_primitives_are_the_model.** Every list primitive of `MockExpectedCallsList` and every
+    loop-free query / state change of `MockCheckedExpectedCall` the matching algorithm uses —
+    regenerated from the C++ on every run (`Gen/MockLists.lean`) — is the function of the hand-written
+    model with which the theorems above are proved (collected from `Proofs/MockGen.lean`). -/
+theorem source_primitives_are_the_model (es : List Exp) (e : Exp) (n : String) (v : Val) (o order : Nat) :
+    Gen.MockLists.onlyKeepExpectationsRelatedTo n es = es.map (fun e => { e with cand := e.cand && e.name == n }) ∧
+    Gen.MockLists.onlyKeepExpectationsWithInputParameter n v es =
+      es.map (fun e => if e.cand && !e.hasInput n v then { e.reset with cand := false } else e) ∧
+    Gen.MockLists.onlyKeepExpectationsWithOutputParameter n es =
+      es.map (fun e => if e.cand && !e.hasOutput n then { e.reset with cand := false } else e) ∧
+    Gen.MockLists.onlyKeepExpectationsOnObject o es =
+      es.map (fun e => if e.cand && !e.relatesToObject o then { e.reset with cand := false } else e) ∧
+    ((∀ x ∈ es, x.isMatch = false) → Gen.MockLists.onlyKeepUnmatchingExpectations es = es.map discardE) ∧
+    Gen.MockLists.addPotentiallyMatchingExpectations es = beginCall es ∧
+    Gen.MockLists.removeFirstFinalizedMatchingExpectation_result es = es.find? isMF ∧
+    Gen.MockLists.removeFirstFinalizedMatchingExpectation_list es = modifyFirst isMF Exp.take es ∧
+    Gen.MockLists.getFirstMatchingExpectation_result es = es.find? isM ∧
+    Gen.MockLists.removeFirstMatchingExpectation_list es = modifyFirst isM Exp.take es ∧
+    Gen.MockLists.resetActualCallMatchingState_all es = resetCands es ∧
+    Gen.MockLists.amountOfActualCallsFulfilledFor es n = totalActualFor es n ∧
+    Gen.MockLists.hasUnfulfilledExpectations es = es.any (fun e => !e.isFulfilled) ∧
+    Gen.MockLists.hasCallsOutOfOrder es = es.any (·.outOfOrder) ∧
+    Gen.MockLists.callWasMade e order = e.callWasMade order ∧
+    Gen.MockLists.resetActualCallMatchingState e = e.reset ∧
+    Gen.MockLists.canMatchActualCalls e = e.canMatch ∧
+    Gen.MockLists.isMatchingActualCallAndFinalized e = e.isMatchingFinalized ∧
+    Gen.MockLists.unfulfilledCallsSection es = unfulfilledOf es ∧ Gen.MockLists.fulfilledCallsSection es = fulfilledOf es :=
+  ⟨gen_onlyKeepExpectationsRelatedTo n es, gen_onlyKeepExpectationsWithInputParameter n v es,
+   gen_onlyKeepExpectationsWithOutputParameter n es, gen_onlyKeepExpectationsOnObject o es,
+   gen_onlyKeepUnmatchingExpectations es, gen_addPotentiallyMatchingExpectations es,
+   (gen_firstFinalizedMatching es).1, (gen_firstFinalizedMatching es).2, (gen_firstMatching es).1, (gen_firstMatching es).2.2,
+   (gen_setters es n).1, (gen_queries es n).2.2.2.2.2.2, (gen_queries es n).2.2.1, (gen_queries es n).2.2.2.1,
+   gen_callWasMade e order, gen_reset e, gen_canMatchActualCalls e, gen_isMatchingActualCallAndFinalized e,
+   (gen_history_sections es n n).1, (gen_history_sections es n n).2.1⟩
+
+/-- the regenerated out-of-order test of `callWasMade`: outside the window `[lo, hi]` of an expectation that has one -/
+theorem source_order_window (e : Exp) (order : Nat) :
+    Gen.MockLists.outOfOrderCondition e order = true ↔ e.lo ≠ 0 ∧ (order < e.lo ∨ e.hi < order) := by
+  rw [gen_outOfOrderCondition]
+  simp [bne_iff_ne]
+
+/-- non-vacuity: the regenerated pruning on a concrete candidate list -/
+example : (Gen.MockLists.onlyKeepExpectationsWithInputParameter "b" (.int 3) (Gen.MockLists.onlyKeepExpectationsRelatedTo "foo"
+    (Gen.MockLists.addPotentiallyMatchingExpectations [(Exp.new "foo" 2 0 0).addSeg (.inp "a" (.int 1)) |>.addSeg (.inp "b" (.int 2)), (Exp.new "foo" 1 0 0).addSeg (.inp "b" (.int 3)), Exp.new "bar" 1 0 0]))).map (·.cand) = [false, true, false] := by decide
+
 /-! ### non-vacuity: concrete scenarios that meet the hypotheses -/
 
 /-- `foo(a=1,b=2)` twice returning 7, `foo(a=1,b=3)` on object 5, `bar(out o)` -/
@@ -568,6 +747,21 @@ example : diagnose exEs ⟨"foo", [.inp "a" (.int 1), .inp "c" (.int 1)]⟩ = so
 example : diagnose exEs ⟨"foo", [.inp "a" (.int 1), .inp "b" (.int 3)]⟩ = some "Mock Failure: Expected call on object for function \"foo\" but it did not happen." := by decide
 example : diagnose exEs ⟨"foo", [.obj 6, .inp "a" (.int 1), .inp "b" (.int 3)]⟩ = some "Mock Failure: Unexpected parameter value to parameter \"b\" to function \"foo\"" := by decide
 example : diagnose exEs ⟨"baz", []⟩ = some "Mock Failure: Unexpected call to function: baz" := by decide
+
+/-- the failure text beyond the first line: `foo(a=1,b=2)` was called once of twice, `bar` not at all -/
+def histFin : List Exp := ((afterCalls exEs 0 [cB, cA]).getD [])
+example : afterCalls exEs 0 [cB, cA] = some histFin := by decide
+example : historyAll histFin =
+    ["hist U-section *", "hist U foo o:- w:- in:a,b out:- iop:0 2 1", "hist U bar o:- w:- in:- out:o iop:0 1 0",
+     "hist F-section *", "hist F foo o:5 w:- in:a,b out:- iop:0 1 1"] := by decide
+example : historyRelated "bar" histFin =
+    ["hist U-section bar", "hist U bar o:- w:- in:- out:o iop:0 1 0", "hist F-section bar", "hist F none"] := by decide
+example : endCheck histFin = some msgUnfulfilled ∧ unfulfilledOf histFin ≠ [] := by decide
+/-- a call without its second parameter: the candidate and what it misses -/
+example : historyMissing "foo" (segsFrom (withName { es := beginCall exEs, call := newCall 1, fail := none } "foo") bufInit [.inp "a" (.int 1)]).es =
+    ["hist M-section foo", "hist M foo o:- w:- in:a,b out:- iop:0 2 0", "hist m b", "hist M foo o:5 w:- in:a,b out:- iop:0 1 0", "hist m b",
+     "hist U-section foo", "hist U foo o:- w:- in:a,b out:- iop:0 2 0", "hist U foo o:5 w:- in:a,b out:- iop:0 1 0",
+     "hist F-section foo", "hist F none"] := by decide
 
 /-- twice `foo(a=1)` with other parameters ignored -/
 def ioA : Exp := (Exp.new "foo" 1 0 0).addSeg (.inp "a" (.int 1)) |>.addSeg .iop |>.addSeg (.ret (.int 10))
